@@ -49,7 +49,8 @@ class PointwiseAffineTransform(Transform):
         else:
             # When log_abs_scale is a scalar, we use n*log_abs_scale, which is more
             # numerically accurate than \sum_1^n log_abs_scale.
-            return self._log_abs_scale * torch.Size(batch_shape).numel()
+            # (reshape: a one-element scale of any rank, e.g. shape [1, 1, 1], counts as a scalar.)
+            return self._log_abs_scale.reshape(()) * torch.Size(batch_shape).numel()
 
     def forward(self, inputs: Tensor, context=Optional[Tensor]) -> Tuple[Tensor]:
         batch_size, *batch_shape = inputs.size()
